@@ -29,7 +29,7 @@ ASSUMPTIONS = [
 
 @st.composite
 def rt_case(draw):
-    case = draw(gens.input_case(gens.opts(long_strings=True, null_structs=True, bits_char=True, bits_odd=True, wide_bits=True)))
+    case = draw(gens.input_case(gens.opts(long_strings=True, null_structs=True, bits_char=True, bits_odd=True, wide_bits=True), cfg_kw={"flip": True}))
     case["mode"] = draw(st.sampled_from(["parsed", "parsed", "constructed"]))
     return case
 
@@ -253,6 +253,8 @@ def run_case(case, ctx):
     cs = common.load(case)
     if case["cfg"].get("load_endian"):
         ctx.count("endian-switched-after-load")
+    if case["cfg"].get("grow") and libside._grow_plan(case["defs"], case["cfg"]):
+        ctx.count("root-declared-short-used-then-completed-through-add_field")
     T = cs.Root
     if mode in ("parsed", "parsed-raw"):
         obj = lib(T, io.BytesIO(ref["data"]))
